@@ -67,8 +67,8 @@ theorem crc64_small_eq_ref (bs : List UInt8) (init : BitVec 64) : crcSmall P64 b
 
 /-! ### constants of the carry-less-multiplication implementation (crc_x86_clmul.h)
 
-  The CLMUL *data path* (folding, byte shuffles, Barrett reduction) is NOT modelled: it is tied to the reference by the
-  correspondence run only. What is proved here: the constants the code uses today (extracted by running the compiled
+  The CLMUL *data path* (folding, byte shuffles, Barrett reduction) is modelled and proved equal to the reference in
+  Props/C14Clmul.lean. What is proved here: the constants the code uses today (extracted by running the compiled
   function, `[]` if the build has no CLMUL code) are the ones defined by crc_clmul_consts_gen.c, i.e.
   `x^k mod P` for the fold distances and `floor(x^128 / P)` for Barrett, in reflected representation. -/
 
